@@ -665,6 +665,7 @@ type zzWorldCfg struct {
 }
 
 type zzWorld struct {
+	linkUps int // UpdateContractSignals deliveries so far
 	r   *simcore.Run
 	t   *testing.T
 	m   *zzModel
@@ -1543,6 +1544,18 @@ func (w *zzWorld) sendUpdates(sets ...int) {
 	for _, s := range sets {
 		w.inc.arb.notifyContractUpdate(&ContractUpdate{HtlcKey: zzSetKeys[s], Htlcs: w.m.dbSet(s)})
 	}
+}
+
+// linkUp: the channel's link comes up (peer (re)connected) and announces itself
+// to the arbitrator the way channelLink.Start does (UpdateContractSignals).
+// Nothing about deadlines, up-time or HTLC sets may change because of it.
+func (w *zzWorld) linkUp() {
+	inc := w.inc
+	if inc.arb == nil || inc.dead {
+		return
+	}
+	go inc.arb.UpdateContractSignals(&ContractSignals{ShortChanID: w.scid})
+	w.settle()
 }
 
 // userClose asks for a force close like ChainArbitrator.ForceCloseContract.
